@@ -144,7 +144,7 @@ func genTopo(r *vlib.Rand) *topo {
 		prev = cur
 	}
 	// peering links: not between two cores
-	for k := r.Intn(4); k > 0; k-- {
+	for k := r.Intn(6); k > 0; k-- {
 		a, b := r.Intn(len(t.ases)), r.Intn(len(t.ases))
 		if a == b || (t.ases[a].core && t.ases[b].core) {
 			continue
@@ -772,6 +772,29 @@ func (in *input) checkPath(p combinator.Path) (string, pathFacts) {
 			return "passes AS " + i.IA.String() + " more than twice", pf
 		}
 	}
+	// SegID accumulator the first router needs: beta_0 = SegmentID, beta_{i+1} = beta_i ^ MAC_i[:2];
+	// a segment entered in construction direction at entry a starts with beta_a, one walked against it
+	// from its last entry n with beta_n; a peering hop is verified with the accumulator of the NEXT entry.
+	for i, w := range chosen {
+		beta := w.s.Info.SegmentID
+		idx := w.a
+		if w.kind != 2 {
+			idx = len(w.s.ASEntries) - 1
+		}
+		if w.peer >= 0 && idx == w.a {
+			idx++
+		}
+		for k := 0; k < idx; k++ {
+			beta ^= binary.BigEndian.Uint16(w.s.ASEntries[k].HopEntry.HopField.MAC[:2])
+		}
+		if d.InfoFields[i].SegID != beta {
+			return fmt.Sprintf("segment %d: SegID %d is not the accumulator %d of the input segment at its first hop",
+				i, d.InfoFields[i].SegID, beta), pf
+		}
+	}
+	if p.Weight*2 != len(p.Metadata.Interfaces) {
+		return fmt.Sprintf("weight %d is not the number of inter-AS links %d", p.Weight, len(p.Metadata.Interfaces)/2), pf
+	}
 	if seqStr(got) != seqStr(want) {
 		return "metadata interfaces " + seqStr(got) + " differ from the interfaces the hop fields traverse " + seqStr(want), pf
 	}
@@ -819,7 +842,7 @@ func main() {
 		"segments not touching src/dst; each case is run with findAllIdentical true and false. Non-trivial = at least " +
 		"one path returned; distinct by op line"
 	go watchdog(e)
-	nTopo := e.N(260, 4000)
+	nTopo := e.N(1300, 22000)
 	casesPer := 6
 	base := int64(1700000000)
 	shapes := map[string]int{}
@@ -968,7 +991,6 @@ func runCase(e *vlib.Env, c *caseT) {
 	curStart.Store(time.Now().UnixNano())
 	curOp.Store(&opAll)
 	defer curOp.Store(nil)
-	opUniq := opLine("uniq", in.src, in.dst, in.ups, in.cores, in.downs)
 	ansAll, ok1 := vlib.Safe(func() string {
 		c.all = combinator.Combine(in.src, in.dst, in.ups, in.cores, in.downs, true)
 		return answer(c.all, true)
@@ -990,16 +1012,17 @@ func runCase(e *vlib.Env, c *caseT) {
 	// ---- C28, per path
 	var facts pathFacts
 	for _, l := range [][]combinator.Path{c.all, c.uniq} {
-		prevW := -1
+		prevW, prevH := -1, -1
 		for i, p := range l {
 			what, pf := in.checkPath(p)
 			if what != "" {
 				bad("C28", "path-metadata", fmt.Sprintf("path %d (%s): %s", i, ifsText(p), what))
 			}
-			if p.Weight < prevW {
-				bad("C28", "order", fmt.Sprintf("path %d has weight %d after weight %d", i, p.Weight, prevW))
+			if hw := len(p.Metadata.Interfaces) / 2; p.Weight < prevW || hw < prevH {
+				bad("C28", "order", fmt.Sprintf("path %d has weight %d (%d links) after weight %d (%d links)",
+					i, p.Weight, hw, prevW, prevH))
 			}
-			prevW = p.Weight
+			prevW, prevH = p.Weight, len(p.Metadata.Interfaces)/2
 			if pf.nseg > facts.nseg {
 				facts.nseg = pf.nseg
 			}
@@ -1049,8 +1072,10 @@ func runCase(e *vlib.Env, c *caseT) {
 	for _, k := range keys {
 		if gotAll[k] == 0 {
 			bad("C29", "missing-combination", "valid combination not returned (findAllIdentical=true): "+k)
-		} else if gotAll[k] != spec[k] {
+		} else if gotAll[k] < spec[k] {
 			bad("C29", "missing-combination", fmt.Sprintf("combination %s can be built in %d ways, %d returned", k, spec[k], gotAll[k]))
+		} else if gotAll[k] > spec[k] {
+			bad("C28", "not-a-combination", fmt.Sprintf("combination %s can be built in %d ways, %d returned", k, spec[k], gotAll[k]))
 		}
 		if gotUniq[k] == 0 {
 			bad("C29", "missing-combination", "valid combination not returned (findAllIdentical=false): "+k)
@@ -1068,7 +1093,7 @@ func runCase(e *vlib.Env, c *caseT) {
 			}
 		}
 	}
-	// ---- correspondence lines
+	// ---- correspondence lines (property-specific, see Driver/Comb.lean)
 	n := len(c.all)
 	c.shape = fmt.Sprintf("seg%d", facts.nseg)
 	if facts.shortcut == 1 {
@@ -1086,13 +1111,49 @@ func runCase(e *vlib.Env, c *caseT) {
 	tag := c.shape
 	if n == 0 {
 		c.shape = "nopath"
+		tag = "~nopath"
 	}
-	if n == 0 {
-		e.Op(opAll, ansAll, "~all/nopath")
-		e.Op(opUniq, ansUniq, "~uniq/nopath")
+	pre := func(t string) string {
+		if strings.HasPrefix(tag, "~") {
+			return "~" + t + "/" + tag[1:]
+		}
+		return t + "/" + tag
+	}
+	if !ok1 || !ok2 {
+		e.Op(opAll, ansAll+" "+ansUniq, pre("panic"))
+	} else if e.Prop == "C29" {
+		for _, m := range []struct {
+			mode string
+			ps   []combinator.Path
+		}{{"all", c.all}, {"uniq", c.uniq}} {
+			var sb strings.Builder
+			sb.WriteString("c29" + opLine(m.mode, in.src, in.dst, in.ups, in.cores, in.downs)[4:])
+			fmt.Fprintf(&sb, " R %d", len(m.ps))
+			for _, p := range m.ps {
+				sb.WriteString(" F" + ifsText(p))
+			}
+			e.Op(sb.String(), "missing", pre(m.mode))
+		}
 	} else {
-		e.Op(opAll, ansAll, "all/"+tag)
-		e.Op(opUniq, ansUniq, "uniq/"+tag)
+		for _, m := range []struct {
+			mode string
+			ps   []combinator.Path
+		}{{"all", c.all}, {"uniq", c.uniq}} {
+			var sb strings.Builder
+			sb.WriteString("c28" + opLine(m.mode, in.src, in.dst, in.ups, in.cores, in.downs)[4:])
+			fmt.Fprintf(&sb, " R %d", len(m.ps))
+			var ws, lines []string
+			for _, p := range m.ps {
+				l := renderUniq(p)
+				if m.mode == "all" {
+					l = renderFull(p)
+				}
+				sb.WriteString(" " + l)
+				lines = append(lines, l)
+				ws = append(ws, fmt.Sprint(p.Weight))
+			}
+			e.Op(sb.String(), "w "+strings.Join(ws, ",")+" | "+strings.Join(lines, " | "), pre(m.mode))
+		}
 	}
 	e.Sample(map[string]any{"src": in.src.String(), "dst": in.dst.String(), "ups": len(in.ups), "cores": len(in.cores),
 		"downs": len(in.downs), "paths_all": len(c.all), "paths_uniq": len(c.uniq), "shape": c.shape})
